@@ -714,6 +714,12 @@ impl<T: LockableGetMut + 'static> LockableGetMut for Cont<T> {
     }
 }
 
+impl<T> Default for Cont<T> {
+    fn default() -> Self {
+        Cont::V(Vec::new())
+    }
+}
+
 impl<T> Extend<T> for Cont<T> {
     fn extend<I: IntoIterator<Item = T>>(&mut self, iter: I) {
         match self {
@@ -758,6 +764,8 @@ impl<T> AsRef<Cont<T>> for Cont<T> {
 pub type CL = Cont<Leaf>;
 pub type Unit = OwnedLockCollection<CL>;
 pub type CN = Cont<Node>;
+/// owned data over arena leaves: a container of `&mut` leaves
+pub type CML = Cont<&'static mut Leaf>;
 
 /// drop-counting tag (C16): counts how often the value it is attached to is dropped
 #[derive(Debug)]
@@ -843,6 +851,12 @@ pub enum Node {
     POwnOwned(Box<Poisonable<Unit>>),
     /// a member with a drop-counting tag attached
     Tagged(Box<Node>, Tag),
+    /// collections built with `new` / `new_ref` / `From<&L>` over shared owned data
+    DRef(RefLockCollection<'static, CML>),
+    DBoxed(BoxedLockCollection<&'static CML>),
+    DRetry(Box<RetryingLockCollection<&'static CML>>),
+    PDBoxed(Box<Poisonable<BoxedLockCollection<&'static CML>>>),
+    PDRetry(Box<Poisonable<RetryingLockCollection<&'static CML>>>),
 }
 
 pub enum NodeAcc<'g, F: Fam> {
@@ -881,6 +895,11 @@ unsafe impl Lockable for Node {
             Node::POwnRetry(c) => c.get_ptrs(ptrs),
             Node::POwnOwned(c) => c.get_ptrs(ptrs),
             Node::Tagged(n, _) => n.get_ptrs(ptrs),
+            Node::DRef(c) => c.get_ptrs(ptrs),
+            Node::DBoxed(c) => c.get_ptrs(ptrs),
+            Node::DRetry(c) => c.get_ptrs(ptrs),
+            Node::PDBoxed(c) => c.get_ptrs(ptrs),
+            Node::PDRetry(c) => c.get_ptrs(ptrs),
         }
     }
     unsafe fn guard(&self) -> Self::Guard<'_> {
@@ -901,6 +920,11 @@ unsafe impl Lockable for Node {
             Node::POwnRetry(c) => NodeAcc::PUnit(Box::new(c.guard())),
             Node::POwnOwned(c) => NodeAcc::PUnit(Box::new(c.guard())),
             Node::Tagged(n, _) => n.guard(),
+            Node::DRef(c) => NodeAcc::Unit(c.guard()),
+            Node::DBoxed(c) => NodeAcc::Unit(c.guard()),
+            Node::DRetry(c) => NodeAcc::Unit(c.guard()),
+            Node::PDBoxed(c) => NodeAcc::PUnit(Box::new(c.guard())),
+            Node::PDRetry(c) => NodeAcc::PUnit(Box::new(c.guard())),
         }
     }
     unsafe fn data_mut(&self) -> Self::DataMut<'_> {
@@ -921,6 +945,11 @@ unsafe impl Lockable for Node {
             Node::POwnRetry(c) => NodeAcc::PUnit(Box::new(c.data_mut())),
             Node::POwnOwned(c) => NodeAcc::PUnit(Box::new(c.data_mut())),
             Node::Tagged(n, _) => n.data_mut(),
+            Node::DRef(c) => NodeAcc::Unit(c.data_mut()),
+            Node::DBoxed(c) => NodeAcc::Unit(c.data_mut()),
+            Node::DRetry(c) => NodeAcc::Unit(c.data_mut()),
+            Node::PDBoxed(c) => NodeAcc::PUnit(Box::new(c.data_mut())),
+            Node::PDRetry(c) => NodeAcc::PUnit(Box::new(c.data_mut())),
         }
     }
 }
@@ -953,6 +982,11 @@ unsafe impl Sharable for Node {
             Node::POwnRetry(c) => NodeAcc::PUnit(Box::new(c.read_guard())),
             Node::POwnOwned(c) => NodeAcc::PUnit(Box::new(c.read_guard())),
             Node::Tagged(n, _) => n.read_guard(),
+            Node::DRef(c) => NodeAcc::Unit(c.read_guard()),
+            Node::DBoxed(c) => NodeAcc::Unit(c.read_guard()),
+            Node::DRetry(c) => NodeAcc::Unit(c.read_guard()),
+            Node::PDBoxed(c) => NodeAcc::PUnit(Box::new(c.read_guard())),
+            Node::PDRetry(c) => NodeAcc::PUnit(Box::new(c.read_guard())),
         }
     }
     unsafe fn data_ref(&self) -> Self::DataRef<'_> {
@@ -973,6 +1007,11 @@ unsafe impl Sharable for Node {
             Node::POwnRetry(c) => NodeAcc::PUnit(Box::new(c.data_ref())),
             Node::POwnOwned(c) => NodeAcc::PUnit(Box::new(c.data_ref())),
             Node::Tagged(n, _) => n.data_ref(),
+            Node::DRef(c) => NodeAcc::Unit(c.data_ref()),
+            Node::DBoxed(c) => NodeAcc::Unit(c.data_ref()),
+            Node::DRetry(c) => NodeAcc::Unit(c.data_ref()),
+            Node::PDBoxed(c) => NodeAcc::PUnit(Box::new(c.data_ref())),
+            Node::PDRetry(c) => NodeAcc::PUnit(Box::new(c.data_ref())),
         }
     }
 }
